@@ -87,7 +87,7 @@ CONFIGS = {
     ]),
     ("C05", "thorough"): ("FilterQuery", SPEC_F, "TestVerifFilterQueryReplay", [
         ("single", fq(5, [3, 4, 5], 1, ALLM, [0, 1, 2, 3, 5], range(0, 7), BadAll=True), (3000, 40)),
-        ("two-callers", fq(3, [2, 3], 2, ALLM, [0, 2], range(0, 5), ALLM, [0], range(0, 5), P=[True]), (2000, 40)),
+        ("two-callers", fq(3, [2, 3], 2, ALLM, [0], range(1, 5), ["none", "rev"], [0], range(1, 4), P=[True]), (2000, 40)),
     ]),
     ("C06", "quick"): ("BlockQuery", SPEC_B, "TestVerifBlockQueryReplay", [
         ("calls", dict(NB=2, NP=2, MaxCalls=2, MaxResp=0), None),
@@ -159,7 +159,17 @@ class _Merged:
         self.distinct += tlc.distinct
         self.depth = max(self.depth, tlc.depth)
         self.wall += tlc.wall
-        self.edges.extend(g.edges)
+        self.edges.extend((0, 0, 0, 0, e[4]) for e in g.edges)   # finish() only counts them
+
+
+CHUNK = 30000     # paths per driver / judge round (bounds memory)
+
+
+def _shrink(t):
+    d = {"id": t["id"], "steps": [0] * len(t["steps"])}
+    if t.get("error"):
+        d["error"] = t["error"]
+    return d
 
 
 def run(prop_id, tier, seed, replay=None):
@@ -168,50 +178,99 @@ def run(prop_id, tier, seed, replay=None):
     module, spec, test, scenarios = CONFIGS[(prop_id, tier)]
     sc = core.scratch("qy")
     try:
-        pf = os.path.join(sc, "paths.ndjson")
+        phases = {"model_s": 0.0, "build_s": 0.0, "replay_s": 0.0, "judge_s": 0.0}
+        t1 = time.time()
+        binary = family.build_overlay_test(PKG, [DRIVER], os.path.join(sc, "neutrino.test"))
+        phases["build_s"] = round(time.time() - t1, 1)
         merged = _Merged()
         info = {}
-        n_paths = 0
-        unreach = 0
+        state = {"n_paths": 0, "unreach": 0, "observed": [], "keep": 3,
+                 "verdict": {"violations": [], "known": {}, "n_lines": 0, "wall": 0.0, "raw": 0},
+                 "drift": [0, 0, []]}
+
+        def replay_chunk(pf):
+            t1 = time.time()
+            observed, log = family.run_driver(binary, test, pf, pf + ".obs", sc,
+                                              env_extra={"VERIF_SEED": str(seed)})
+            os.remove(pf + ".obs")
+            phases["replay_s"] += time.time() - t1
+            t1 = time.time()
+            observed.sort(key=lambda t: t["id"])
+            v = family.judge([spec], module + "Props", PROPS[prop_id], prop_id, observed, label=label)
+            phases["judge_s"] += time.time() - t1
+            vd = state["verdict"]
+            vd["violations"].extend(v["violations"])
+            vd["n_lines"] += v["n_lines"]
+            vd["raw"] += v["raw"]
+            for kid, k in v["known"].items():
+                if kid in vd["known"]:
+                    vd["known"][kid]["count"] += k["count"]
+                else:
+                    vd["known"][kid] = k
+            n_steps, n_drift, samples = family.drift(pf, observed, label=label)
+            state["drift"][0] += n_steps
+            state["drift"][1] += n_drift
+            state["drift"][2] = (state["drift"][2] + samples)[:5]
+            for t in observed:
+                if state["keep"] > 0 and not t.get("error"):
+                    state["keep"] -= 1
+                    state["observed"].append(t)
+                else:
+                    state["observed"].append(_shrink(t))
+
         if replay:
+            pf = os.path.join(sc, "paths.ndjson")
             family.paths_from_replay(replay, pf)
-            n_paths = 1
+            state["n_paths"] = 1
+            replay_chunk(pf)
             tlc_m, g_m = family._NoTLC(), None
         else:
-            with open(pf, "w") as out:
-                for name, consts, walks in scenarios:
-                    tlc = core.run_tlc([spec], module, consts, workers=1, invariants=INVARIANTS[module],
-                                       workdir=os.path.join(sc, "tlc-" + name), timeout=3000)
-                    if not tlc.ok:
-                        raise core.MachineryError("TLC on %s (%s) failed: %s\n%s" % (
-                            module, name, tlc.error, tlc.stdout_tail[-3000:]))
-                    g = core.Graph.load(tlc)
-                    paths, un = core.edge_cover(g, rng)
-                    unreach += un
-                    if walks:
-                        paths += core.random_walks(g, walks[0], walks[1], rng)
-                    tmp = os.path.join(sc, "p-%s.ndjson" % name)
-                    core.write_paths(g, paths, tmp)
-                    for line in open(tmp):
-                        d = json.loads(line)
-                        d["id"] = n_paths
-                        n_paths += 1
-                        out.write(json.dumps(d, separators=(",", ":")) + "\n")
-                    os.remove(tmp)
-                    merged.add(tlc, g)
-                    info[name] = {"constants": consts, "states": tlc.distinct, "edges": len(g.edges),
-                                  "paths": len(paths), "tlc_wall_s": round(tlc.wall, 1),
-                                  "model_violating_edges": sum(1 for e in g.edges if e[4])}
-                    shutil.rmtree(os.path.join(sc, "tlc-" + name), ignore_errors=True)
+            for name, consts, walks in scenarios:
+                t1 = time.time()
+                tlc = core.run_tlc([spec], module, consts, workers=1, invariants=INVARIANTS[module],
+                                   workdir=os.path.join(sc, "tlc-" + name), timeout=3000)
+                if not tlc.ok:
+                    raise core.MachineryError("TLC on %s (%s) failed: %s\n%s" % (
+                        module, name, tlc.error, tlc.stdout_tail[-3000:]))
+                g = core.Graph.load(tlc)
+                shutil.rmtree(os.path.join(sc, "tlc-" + name), ignore_errors=True)
+                paths, un = core.edge_cover(g, rng)
+                state["unreach"] += un
+                if walks:
+                    paths += core.random_walks(g, walks[0], walks[1], rng)
+                tmp = os.path.join(sc, "p-%s.ndjson" % name)
+                core.write_paths(g, paths, tmp)
+                merged.add(tlc, g)
+                info[name] = {"constants": consts, "states": tlc.distinct, "edges": len(g.edges),
+                              "paths": len(paths), "tlc_wall_s": round(tlc.wall, 1),
+                              "model_violating_edges": sum(1 for e in g.edges if e[4])}
+                del g
+                phases["model_s"] += time.time() - t1
+                # renumber and replay in chunks
+                k, out, pf = 0, None, None
+                for line in open(tmp):
+                    if out is None:
+                        pf = os.path.join(sc, "chunk.ndjson")
+                        out = open(pf, "w")
+                    d = json.loads(line)
+                    d["id"] = state["n_paths"]
+                    state["n_paths"] += 1
+                    out.write(json.dumps(d, separators=(",", ":")) + "\n")
+                    k += 1
+                    if k >= CHUNK:
+                        out.close()
+                        replay_chunk(pf)
+                        k, out = 0, None
+                if out is not None:
+                    out.close()
+                    replay_chunk(pf)
+                os.remove(tmp)
             tlc_m, g_m = merged, merged
-        binary = family.build_overlay_test(PKG, [DRIVER], os.path.join(sc, "neutrino.test"))
-        observed, log = family.run_driver(binary, test, pf, os.path.join(sc, "obs.ndjson"), sc,
-                                          env_extra={"VERIF_SEED": str(seed)})
-        observed.sort(key=lambda t: t["id"])
-        verdict = family.judge([spec], module + "Props", PROPS[prop_id], prop_id, observed, label=label)
-        dr = family.drift(pf, observed, label=label)
-        return family.finish(prop_id, tier, seed, t0, tlc_m, g_m, list(range(n_paths)), observed, verdict, dr,
-                             {"scenarios": info, "edges_only_reachable_through_model_violation": unreach},
+        phases = {k: round(v, 1) for k, v in phases.items()}
+        return family.finish(prop_id, tier, seed, t0, tlc_m, g_m, list(range(state["n_paths"])),
+                             state["observed"], state["verdict"], tuple(state["drift"]),
+                             {"scenarios": info, "edges_only_reachable_through_model_violation": state["unreach"],
+                              "phases": phases},
                              ASSUMPTIONS[prop_id], label=label)
     finally:
         shutil.rmtree(sc, ignore_errors=True)
